@@ -448,6 +448,14 @@ func (n *vfNet) events() []*vfWireEv {
 	return out
 }
 
+// faultsHit: number of packets dropped, duplicated or delayed by the fault policy so far.
+func (n *vfNet) faultsHit() int {
+	n.mu.Lock()
+	defer n.mu.Unlock()
+
+	return n.nDrop + n.nDup + n.nDelay
+}
+
 func (n *vfNet) queued() int {
 	n.mu.Lock()
 	defer n.mu.Unlock()
